@@ -2,7 +2,7 @@
 """Regenerates MANIFEST.json from the table below (keeps it valid at all times)."""
 import json, subprocess
 HOOK_COMMITS = ["b5f9d2d"]
-FIX_COMMITS = ["0b9f86a", "6aba424"]
+FIX_COMMITS = ["0b9f86a", "6aba424", "2465c6f"]
 CLAIMED = {
  "C02": dict(cat="exploration", ref="§5 C02",
    text="Deterministic simulation of the whole program against generated data directories: the (chain length T<=10) x option-shape x callback grid is enumerated completely (2.9k scenarios), high heights (VarInt width boundaries, up to 4M) and long chains are sampled under benign I/O perturbation. Marker blocks make every output row reveal its height, so 'exactly s..min(e,T), once, ascending' is read off the real outputs of all five callbacks.",
@@ -48,6 +48,14 @@ CLAIMED = {
    text="Schedule and history exploration: (a) each wide world (hundreds of txs per block / thousands of outputs per tx, so both rayon levels really split) is run 10-14 times over 1..64 workers with completion order pushed by per-item delays that are a pure function of the plan seed and item key (ascending, descending, random, one straggler), under 16-way process contention; all outputs must equal the 1-thread run and the reference model; (b) histories of 2-6 runs on one shared dump folder pre-seeded with longer stale tmp files, earlier results and unrelated files, judged after every step; (c) blk/xor digests and the logical key/value content of the index (read from a copy) must be unchanged by every run and reruns on the reopened index must agree.",
    note="Rayon's interleaving is pushed (worker count + deterministic per-item delays), not decided: threads are real, so which worker ran what is not bit-exactly replayable; on a tree where the property holds the outcome is schedule-independent, so this cannot raise a false alarm; for a violation the replay command retries up to 6 times. shuttle/loom cannot drive rayon (DESIGN §10).",
    tech="deterministic simulation of run histories + seeded schedule perturbation (worker count x completion-order delay plans), metamorphic equality across schedules and against a reference model"),
+ "C05": dict(cat="exploration", ref="§5 C05",
+   text="Differential testing of a total function through the simulated pipeline: 300-3000 scripts per run packed as outputs of a few transactions (so the parallel evaluation really splits), generated from canonical templates, one-byte mutations, all leading opcodes, the witness version x length grid, the multisig m/n grid, random tokens and bytes; address per script read from csvdump, type counts and first occurrences from simplestats, compared with an independent reference (own Base58Check/Bech32/Bech32m, BIP141 rules) that abstains where the statement is silent; every reported address is additionally decoded and matched against the script. Worker count, completion-order delays and read chunking are perturbed.",
+   note="Weakest fit for this technique: the property is a pure function of the script bytes; simulation adds only independence from worker count/completion order/buffering. The hand-written reference is the trusted base; abstentions (v0 witness programs of odd length, multisig look-alikes) are counted in the evidence.",
+   tech="deterministic simulation, benign configuration: seeded differential testing against an executable reference under worker-count / delay / short-read perturbation"),
+ "C06": dict(cat="exploration", ref="§5 C06",
+   text="Same pipeline on the six fork coins: every template x every push form able to carry each slot (direct, PUSHDATA1/2/4), zero-length pushes, truncations, PUSHDATA lengths past the end (2^31, 2^32-1), no-op insertions at token boundaries, mutations, random tokens/bytes; addresses (coin version byte, 0x05 for P2SH) and type counts compared with a reference tokeniser written from the property statement; no evaluation-error type may appear and every run must exit 0.",
+   note="Scripts containing CLTV/CSV (0xb1/0xb2) are abstained on. Same trusted base as C05.",
+   tech="deterministic simulation, benign configuration: seeded differential testing against an executable reference tokeniser under worker-count / delay / short-read perturbation"),
 }
 PENDING_REASON = "check not built yet in this revision (claimed in DESIGN.md; will move to checks when its oracle is registered)"
 ALL = ["C%02d" % i for i in range(1, 18)]
